@@ -56,6 +56,9 @@ WV_INTS = ["0", "1", "127", "128", "255", "256", "65535", "65536", "16777216", "
 ICON = base64.b64encode(b"GIF89a\x01\x00\x01\x00\x80\x00\x00\xff\xff\xff\x00\x00\x00!\xf9\x04").decode()
 BINS = [base64.b64encode(b).decode() for b in (b"binary\x00data\xff\xfe", b"abcd", b"\x00\x01\x02", b"The quick brown fox", b"abcd")]
 
+# base64 of " ", "\r\n", "\t \n", "\n\n", " a " (the last one is not blank: the control)
+BLANK_BINS = ["IA==", "DQo=", "CSAK", "Cgo=", "IGEg"]
+
 
 def doctype(lang):
     root = lang["root"]
@@ -353,7 +356,16 @@ class LangGen:
             kids.append(self.elt(b, [BINS[0][:4], child, BINS[0][4:]]))
             kids.append(self.elt(b, [child, BINS[k % len(BINS)]]))
             kids.append(self.elt(b, [BINS[1], self.elt(other[(k + 1) % len(other)], ["inner"]), " "]))
-        return [self.root(kids)]
+        # payloads whose DECODED octets are all white space (0x09-0x0d, 0x20): parse_text keeps them under a
+        # binary-flagged tag (one OPAQUE), although the same text is dropped under every other tag -- so the element
+        # must have its content bit and its END.  Every binary-flagged tag of the language, each blank payload.
+        blank = []
+        for k, b in enumerate(bins):
+            for pl in BLANK_BINS:
+                blank.append(self.elt(b, [pl]))
+            rows = [r for r in (self.attrs or []) if ":" not in r[0]]
+            blank.append(self.elt(b, [BLANK_BINS[k % len(BLANK_BINS)]], None if not rows else [(rows[0][0], "v")]))
+        return [self.root(kids), self.root(blank)]
 
 
 def documents(tj, rng, quick=True, token_root=False):
